@@ -45,8 +45,6 @@ _PROCS = ("Director._process_disable", "Director._process_type")
 _POSITIONAL = {"line", "line_range", "open_ended", "disable", "final_line"}
 
 
-# -- helpers ----------------------------------------------------------------------
-
 def _stored(node):
   return {n.id for n in ast.walk(node) if isinstance(n, ast.Name) and not isinstance(n.ctx, ast.Load)}
 
@@ -115,6 +113,8 @@ def _paths(block, acc=()):
   st, rest = block[0], block[1:]
   if isinstance(st, ast.If):
     for pol, sub in ((True, st.body), (False, st.orelse)):
+      if isinstance(st.test, ast.Constant) and bool(st.test.value) != pol:
+        continue   # infeasible branch of a constant test
       for ev, how in _paths(sub, acc + (("cond", st.test, pol),)):
         if how == "fall":
           yield from _paths(rest, ev)
@@ -185,8 +185,6 @@ def _arms(mod, qual):
   return fn, st, arms[0], arms[1], f"self._disables[{loop.target.id}]", "disable", loop.target.id
 
 
-# -- R3.1 ---------------------------------------------------------------------------
-
 @rule("R3.1", "C03", floor=6)
 def r3_1(ctx):
   """The comment's own line is always registered."""
@@ -200,32 +198,16 @@ def r3_1(ctx):
       ctx.check(not missing, f"{qual}:{tag}", DIR, st.lineno,
                 f"a path through the {tag} arm (conditions {missing[:1]}) does not call "
                 f"{recv}.{meth}(line, {memb})", {"paths": len(todo), "receiver": recv})
-    # reaching the split must not depend on where the comment is
-    if lv is None:
-      outer = mod.parent[st]
-      flag = src(outer.test) if isinstance(outer, ast.If) and isinstance(outer.test, ast.Name) else None
-      if not flag or "IGNORE_RE" not in src(_single_def(fn, flag) or ast.Name("?")):
-        raise AnalysisError(f"{qual}: the ignore flag guarding the split was not found")
-      fine = lambda t, p: (p and src(t) == flag) or (not p and f"not {flag}" in (
-          [src(v) for v in t.values] if isinstance(t, ast.BoolOp) and isinstance(t.op, ast.And) else [src(t)]))
-    else:
-      valid = {f"{lv} == _ALL_ERRORS", f"self._errorlog.is_valid_error_name({lv})"}
-      fine = lambda t, p: (src(t), p) in (("not values", False), ("values", True), (f"keep({lv})", True),
-                                          (f"not keep({lv})", False)) or (
-          p and isinstance(t, ast.BoolOp) and isinstance(t.op, ast.Or) and {src(v) for v in t.values} == valid)
-    wrong = []
-    for t, p in _guards(mod, st):
-      if fine(t, p):
-        continue
-      if not (flow.names_in(t) & _POSITIONAL or lv is None):
-        raise AnalysisError(f"{qual}: unrecognised guard {src(t)}")
-      wrong.append((src(t), p))
+    # reaching the split must not depend on where the comment is (except through the ignore flag)
+    flag = src(mod.parent[st].test) if lv is None and isinstance(mod.parent[st], ast.If) else None
+    if lv is None and not (flag and flag.isidentifier() and "IGNORE_RE" in _resolve(fn, mod.parent[st].test)):
+      raise AnalysisError(f"{qual}: the ignore flag guarding the split was not found")
+    wrong = [(src(t), p) for t, p in _guards(mod, st) if flow.names_in(t) & _POSITIONAL and not (
+        flag and not p and f"not {flag}" in [src(v) for v in getattr(t, "values", [t])])]
     ctx.check(not wrong, f"{qual}:arm-guards", DIR, st.lineno,
               f"registration is conditional on {wrong}: a directive at some position is not registered",
               {"guards": _gtxt(mod, st)})
 
-
-# -- R3.7 ---------------------------------------------------------------------------
 
 @rule("R3.7", "C03", floor=7)
 def r3_7(ctx):
@@ -262,8 +244,6 @@ def r3_7(ctx):
                 c.lineno, "; ".join(why), {"receiver": got, "line": a, "membership": m})
 
 
-# -- R3.2 ---------------------------------------------------------------------------
-
 _MUT = {"append", "extend", "insert", "remove", "pop", "clear", "sort", "reverse",
         "__setitem__", "__delitem__", "__iadd__", "__imul__"}
 _READERS = {"len", "iter", "sorted", "any", "all", "list", "tuple", "enumerate", "reversed", "bool", "sum"}
@@ -297,15 +277,17 @@ def _writers(mod, uses):
                 for k, q, n in uses if k not in ("read", "escape"))
 
 
-def _filter_test(t, err):
-  """Is `t` true only if the filter is absent or accepted `err`?"""
-  call, none = f"self._filter({err})", ("self._filter is None", "not self._filter")
-  if isinstance(t, ast.BoolOp):
-    ops = [src(v) for v in t.values]
-    if isinstance(t.op, ast.Or):
-      return call in ops and all(o == call or o in none for o in ops)
-    return any(_filter_test(v, err) for v in t.values)
-  return src(t) == call
+def _filter_test(t, p, err):
+  """Does `t` with polarity `p` imply that the filter is absent or accepted `err`?"""
+  call, none, some = f"self._filter({err})", ("self._filter is None", "not self._filter"), (
+      "self._filter is not None", "self._filter")
+  ops = [src(v) for v in getattr(t, "values", [t])]
+  if not p:   # early exit `if <filter present> and not filter(err): return`
+    return f"not {call}" in ops and all(o == f"not {call}" or o in some for o in ops) and not isinstance(
+        getattr(t, "op", None), ast.Or)
+  if isinstance(t, ast.BoolOp) and isinstance(t.op, ast.And):
+    return any(_filter_test(v, True, err) for v in t.values)
+  return call in ops and all(o == call or o in none for o in ops)
 
 
 @rule("R3.2", "C03", floor=13)
@@ -340,7 +322,7 @@ def r3_2(ctx):
   apps = [c for c in calls_in(add) if dotted(c.func) == "self._errors.append"]
   g = [_gtxt(mod, c) for c in apps]
   ok = bool(apps) and err not in _stored(add) and all(
-      [src(a) for a in c.args] == [err] and any(p and _filter_test(t, err) for t, p in _guards(mod, c))
+      [src(a) for a in c.args] == [err] and any(_filter_test(t, p, err) for t, p in _guards(mod, c))
       for c in apps)
   ctx.check(ok, "ErrorLog._add:filter-guard", ERR, add.lineno, "append must be guarded by `self._filter is "
             f"None or self._filter({err})` for the appended error; guards={g}", {"guards": g})
@@ -376,14 +358,17 @@ def r3_2(ctx):
   if len(dirs) != 1 or not runs:
     raise AnalysisError("run_program: `<name> = directors.Director(...)` or run_bytecode not found")
   want = f"self.ctx.errorlog.set_error_filter({dirs[0].targets[0].id}.filter_error)"
-  inst = calls_in(run, suffix="set_error_filter")
+  norm = lambda c: src(c).replace(src(c.func.value), _resolve(run, c.func.value), 1) if _is_reg(
+      c, ("set_error_filter",)) else ""
+  inst = [norm(c) for c in calls_in(run, suffix="set_error_filter")]
   b = _bind(dirs[0].value, get_module(ctx, DIR).func("Director.__init__"))
-  ctx.check([src(c) for c in inst] == [want] and b.get("errorlog") == "self.ctx.errorlog"
+  log = b.get("errorlog", "")
+  ctx.check(inst == [want] and (_resolve(run, ast.Name(id=log)) if log.isidentifier() else log) == "self.ctx.errorlog"
             and b.get("filename") == "filename" and "filename" not in _stored(run),
             "VirtualMachine.run_program:installs-filter", VM, run.lineno,
-            f"set_error_filter calls {[src(c) for c in inst]} (expected exactly {want}) with Director({b}): "
-            "the filter must be the one of the Director built for this file and log", {"director": b})
-  f = flow.flow(run, gen=lambda u: {"on"} if any(src(c) == want for c in flow.unconditional_calls(u)) else ())
+            f"set_error_filter calls {inst} (expected exactly {want}) with Director({b}): the filter must "
+            "be the one of the Director built for this file and log", {"director": b})
+  f = flow.flow(run, gen=lambda u: {"on"} if any(norm(c) == want for c in flow.unconditional_calls(u)) else ())
   ctx.check(all("on" in (f.before.get(vm.enclosing_stmt(c)) or ()) for c in runs),
             "VirtualMachine.run_program:filter-dominates-run_bytecode", VM, runs[0].lineno,
             "run_bytecode is reachable before the director's filter is installed", {"runs": len(runs)})
@@ -401,8 +386,6 @@ def r3_2(ctx):
     ctx.check(setters == [(VM, "VirtualMachine.run_program")], "package:set_error_filter-callers", VM, 0,
               f"set_error_filter is called from {setters}; only run_program may", {"callers": setters})
 
-
-# -- R3.3 ---------------------------------------------------------------------------
 
 def _beval(node, val, atoms):
   """Evaluates a not/and/or combination of `x in c` / `x not in c` under `val`; collects the atoms."""
@@ -458,8 +441,6 @@ def r3_3(ctx):
             f"_ignore/_disables are {sets}; membership must be _LineSet.__contains__", {"sets": sets})
 
 
-# -- R3.4 ---------------------------------------------------------------------------
-
 @rule("R3.4", "C03", floor=3)
 def r3_4(ctx):
   """A per-line entry takes precedence over the range list."""
@@ -484,12 +465,10 @@ def r3_4(ctx):
   if len(others) != 1:
     raise AnalysisError("__contains__: expected one range fall-back return")
   val, g = others[0].value, _gtxt(mod, others[0])
-  if not (isinstance(val, ast.Compare) and len(val.ops) == 1 and isinstance(val.left, ast.BinOp)
-          and isinstance(val.left.op, ast.Mod) and src(val.left.right) == "2"
-          and isinstance(val.ops[0], (ast.Eq, ast.NotEq)) and src(val.comparators[0]) in ("0", "1")):
+  m = re.fullmatch(r"(\w+) % 2 (==|!=) ([01])", src(val))
+  if not m:
     raise AnalysisError(f"__contains__: range parity test has unknown shape {src(val)}")
-  pos = _resolve(fn, val.left.left)
-  odd = isinstance(val.ops[0], ast.Eq) == (src(val.comparators[0]) == "1")
+  pos, odd = _resolve(fn, ast.Name(id=m.group(1))), (m.group(2) == "==") == (m.group(3) == "1")
   ctx.check(any(x in miss for x in g) and odd and pos in (
       f"bisect.bisect(self._transitions, {key})", f"bisect.bisect_right(self._transitions, {key})"),
             "_LineSet.__contains__:range-fallback", DIR, others[0].lineno,
@@ -503,8 +482,6 @@ def r3_4(ctx):
   ctx.check(st == [(f"self._lines[{a}]", b)], "_LineSet.set_line:stores", DIR, sl.lineno,
             f"set_line performs {st}; it must store the given membership under the given line", {"stores": st})
 
-
-# -- R3.5 ---------------------------------------------------------------------------
 
 @rule("R3.5", "C03", floor=6)
 def r3_5(ctx):
@@ -570,9 +547,13 @@ def r3_5(ctx):
   # Director side: base ranges are never skipped, every comment is dispatched
   dmod = get_module(ctx, DIR)
   keep = dmod.func("Director._process_disable.keep")
-  wrong = [src(r) for r in _returns(keep) if src(r.value) != "True" and not any(
-      p and isinstance(t, ast.Call) and dotted(t.func) == "isinstance" and len(t.args) == 2
-      and src(t.args[0]) == "line_range" and src(t.args[1]).endswith("Call") for t, p in _guards(dmod, r))]
+  is_call = re.compile(r"isinstance\(line_range, (\w+\.)?Call\)")
+  wrong = [src(r) for r in _returns(keep) if not any(p and is_call.fullmatch(src(t)) for t, p in _guards(dmod, r))
+           and not any(o == "True" or (o[:4] == "not " and is_call.fullmatch(o[4:])) for o in (
+               [src(x) for x in getattr(r.value, "values", [r.value])]
+               if not isinstance(getattr(r.value, "op", None), ast.And) else []))]
+  if any("isinstance" in w for w in wrong):
+    raise AnalysisError(f"keep(): unknown idiom {wrong}")
   ctx.check(not wrong and flow.terminates(keep.body), "Director._process_disable.keep:base-range", DIR,
             keep.lineno, f"keep() answers {wrong} for a base LineRange; only Call ranges may be skipped",
             {"returns": [src(r) for r in _returns(keep)]})
@@ -599,8 +580,6 @@ def r3_5(ctx):
               f"{target} receives {b} under {g}; expected {want} for every comment of every group",
               {"args": b, "guards": g})
 
-
-# -- R3.6 ---------------------------------------------------------------------------
 
 def _plain(x):
   if isinstance(x, sp.SubPattern):
@@ -704,8 +683,6 @@ def r3_6(ctx):
               f"command {cmd!r} runs {[src(c) for c in calls]}; expected one "
               f"_process_disable(line, line_range, open_ended, <names>, disable={flag})", {"args": b})
 
-
-# -- sensitivity suite -----------------------------------------------------------------
 
 def _v(name, rid, file, old, new, expect="fire"):
   return {"name": name, "rule": rid, "file": file, "old": old, "new": new, "expect": expect}
